@@ -44,7 +44,7 @@ CLAIMED = {
                      None, "tuple type and grouping under (first,last) keys; the '_' string encoding of occurrences."), design="DESIGN.md 5 C12"),
  'C13': dict(text=T("EXACT characterisation: a hop sequence whose first hop is not a root self-loop is returned iff it satisfies C12's conditions (C13_exact = soundness + C13_complete_partial; C13_dag_complete, C13_search_complete), absent root (C13_absent_root), all_time_respecting_paths = per-node queries (C13_all); sample<1: for ANY selection of source/target pairs the result is a duplicate-free sub-collection of the full result, errors unchanged, selecting all pairs = the unsampled function (C13_sample_subset, C13_sample_error, C13_sample_all).",
                      "first hop = self-loop of the root is missed (C13_complete_refuted, K-C13-1).", "which pairs numpy draws (the selection is a parameter of the model)."), design="DESIGN.md 5 C13"),
- 'C14': dict(text=T("each class is exactly the set of minimisers (C14_primary, C14_secondary), subset of the input, non-empty, multiplicity kept, metrics (C14_subset, C14_nonempty, C14_primary_filter, C14_metrics)."), design="DESIGN.md 5 C14"),
+ 'C14': dict(text=T("each class is exactly the set of minimisers (C14_primary, C14_secondary), subset of the input, non-empty, metrics (C14_subset, C14_nonempty, C14_metrics); in the model the primary classes keep the multiplicity of repeated input paths (C14_primary_filter) -- the property does not fix it, so the implementation is compared at the level of sets."), design="DESIGN.md 5 C14"),
  'C15': dict(text=T("edge soundness, exact sources, targets, window errors / empty DAG (C15_edge_sound, C15_sources, C15_targets, C15_window); the textual occurrence names \"<node>_<tid>\" are injective and both decoders invert them for arbitrary text ids, underscores included (C15_names_injective, C15_names_decode, C15_names_root, C15_names_first_underscore).",
                      "acyclicity holds without a root self-loop in the window (C15_acyclic_partial), refuted with one (C15_acyclic_refuted, K-C15-1)."), design="DESIGN.md 5 C15"),
  'C16': dict(text=T("to_undirected(): presence = OR of the two directions; reciprocal=True: AND (C16_undirected, C16_reciprocal); nodes/attributes kept; both conversions return graphs satisfying every invariant behind C02-C05 (C16_wellformed).",
